@@ -2668,6 +2668,15 @@ def hc128_expansion_word_seeds(rng, per_pos=1):
     f1(W[i-15]) + W[i-16] + i and for i < 32 the term W[i-16] is a seed word (key, key, iv, iv), so the word is reached by
     solving for that seed word (fixed-point iteration, verified).  A clamp / guard / saturation on a freshly expanded word fires
     exactly on such seeds (a random seed has one with probability 2^-24)."""
+    cp = os.path.join(VERIF, "corpus", "hc128_expansion_words.json")
+    if os.path.exists(cp):
+        # found once with z3 (tools/gen_hc128_expansion_words.py): deeper words than the correction below reaches
+        try:
+            corp = [(f"expansion-{e['stage']}{e['index']}={e['value']}", bytes.fromhex(e["seed"])) for e in json.load(open(cp))]
+            if len(corp) >= 12:
+                return corp
+        except Exception:
+            pass
     M = 0xffffffff
     rotr = lambda x, r: ((x >> r) | (x << (32 - r))) & M
     f1 = lambda x: rotr(x, 7) ^ rotr(x, 18) ^ (x >> 3)
